@@ -13,7 +13,7 @@ import onnx_ir as ir
 from onnx_ir import convenience as ir_conv
 
 # the last name is a legal Python str that protobuf cannot encode: objects that keep their name in a proto reject it
-NAMES = [None, "", "a", "b", "w", "w_1", "val_0", "val_1", "val_2", "node_Add_0", "x", "y", "w_\ud800"]
+NAMES = [None, "", "a", "b", "w", "w_1", "val_0", "val_1", "val_2", "node_Add_0", "x", "y", "w_\ud800", "\udcff"]
 OPS = ["Add", "Mul", "Relu", "Identity", "If"]
 
 
@@ -137,7 +137,7 @@ class Universe:
 
     # -- construction -------------------------------------------------------------
     def tensor(self, k=0):
-        if k % 3 == 2:
+        if k % 3 != 0:
             # a tensor that lives in a TensorProto (what every deserialized model holds): its name setter goes through
             # protobuf and can therefore raise
             import onnx
